@@ -88,6 +88,7 @@ def run_pp_case(case):
     trace = Trace(sched)
     faults = FaultPlan(case.get('faults'), trace)
     fs = fakefs.MemFS(sched, trace, faults)
+    fs.wbuf = case.get('fs_buffer') or 0
     svc = FakeS3(sched, trace, faults, case.get('scripts'),
                  strict_params=case.get('strict', True))
     R = Result()
